@@ -1,0 +1,69 @@
+//! Coverage counters for external verification harnesses.
+//!
+//! Only compiled with `--cfg recmo_uint_verif` (and the `std` feature). The
+//! counters only measure how often rare branches are reached; they never
+//! influence any result.
+
+#![allow(missing_docs, clippy::missing_inline_in_public_items)]
+
+use core::cell::Cell;
+
+/// Names of the hooked branches, indexed by hook id.
+pub const NAMES: [&str; 34] = [
+    "knuth_normalized_forced_digit",
+    "knuth_normalized_add_back",
+    "knuth_forced_digit",
+    "knuth_add_back_unshifted",
+    "knuth_add_back_shifted",
+    "knuth_q_high_nonzero",
+    "knuth_digit_zero_skip",
+    "div_2x1_down_correction",
+    "div_2x1_up_correction",
+    "div_3x2_down_correction",
+    "div_3x2_up_correction",
+    "reciprocal_2_first_correction",
+    "reciprocal_2_first_correction_twice",
+    "reciprocal_2_second_correction",
+    "reciprocal_2_second_correction_twice",
+    "mul_redc_carry_set",
+    "square_redc_carry_outer_1",
+    "square_redc_carry_outer_2",
+    "reduce1_by_carry",
+    "reduce1_by_no_borrow",
+    "reduce1_not_taken",
+    "lehmer_prefix_identity_small_a1",
+    "lehmer_prefix_a2_small_step",
+    "lehmer_prefix_a2_small_identity",
+    "lehmer_prefix_even_i_plus_2",
+    "lehmer_prefix_even_i_plus_1",
+    "lehmer_prefix_even_i",
+    "lehmer_prefix_odd_i_plus_2",
+    "lehmer_prefix_odd_i_plus_1",
+    "lehmer_prefix_odd_i",
+    "gcd_euclid_fallback",
+    "gcd_extended_euclid_fallback",
+    "inv_mod_euclid_fallback",
+    "gcd_lehmer_step",
+];
+
+std::thread_local! {
+    static COUNTERS: [Cell<u64>; NAMES.len()] = [const { Cell::new(0) }; NAMES.len()];
+}
+
+/// Count one visit of hook `id` on the current thread.
+#[inline]
+pub fn hit(id: usize) {
+    COUNTERS.with(|c| c[id].set(c[id].get() + 1));
+}
+
+/// Return and reset the counters of the current thread.
+#[must_use]
+pub fn take() -> [u64; NAMES.len()] {
+    COUNTERS.with(|c| {
+        let mut out = [0; NAMES.len()];
+        for (o, c) in out.iter_mut().zip(c.iter()) {
+            *o = c.replace(0);
+        }
+        out
+    })
+}
